@@ -617,20 +617,24 @@ def spawn_layer_in_subprocess(result, script_parts, options, features,
                                      for line in errlines[-10:]))
             output.error_with_banner(errmsg)
 
-        while nfail > 0:
-            nfail -= 1
-            # Doing erriter.next().strip() confuses the 2to3 fixer, so
-            # we need to do it on a separate line. Also, in python 3 this
-            # returns bytes, so we decode it.
-            next_fail = next(erriter)
-            failures.append((next_fail.strip().decode(), None))
-        while nerr > 0:
-            nerr -= 1
-            # Doing erriter.next().strip() confuses the 2to3 fixer, so
-            # we need to do it on a separate line. Also, in python 3 this
-            # returns bytes, so we decode it.
-            next_err = next(erriter)
-            errors.append((next_err.strip().decode(), None))
+        # The header is followed by one line per failure and per error.
+        # Only trust them if they are all there: a child that died while
+        # writing its report must not be taken for a (partially) good one.
+        names = list(erriter)
+        if (len(names) < nfail + nerr or
+                (nfail + nerr and len(names) == nfail + nerr and
+                 not stderr_buf[0].endswith(b'\n'))):
+            result.num_ran = 0
+            errors.append(("subprocess for %s" % layer_name, None))
+            output.error_with_banner(
+                "Incomplete report from subprocess for %s!" % layer_name)
+        else:
+            for next_fail in names[:nfail]:
+                failures.append(
+                    (next_fail.strip().decode('utf-8', 'replace'), None))
+            for next_err in names[nfail:nfail + nerr]:
+                errors.append(
+                    (next_err.strip().decode('utf-8', 'replace'), None))
 
     finally:
         result.done = True
